@@ -15,6 +15,9 @@ theorem runInline_foreign : ¬ runInline false := by unfold runInline; simp
 theorem drainSwaps_tie : drainSwaps = true := rfl
 theorem finalDrain_tie : finalDrain = .untilEmpty := rfl
 theorem callingResetAfterRun_tie : callingResetAfterRun = true := rfl
+/-- the functor objects of a batch die while `callingPendingFunctors_` is still set (`functors.clear()` before the reset):
+what `WakeInv.callingDrain` needs while destructor bodies run -/
+theorem batchDestroyedBeforeReset_tie : batchDestroyedBeforeReset = true := rfl
 /-- the parts of the code's shape that the model of the functor queue takes for granted (not parameters of `step`) -/
 theorem shape_tie : drainEachIteration = true ∧ loopingBracket = true ∧ callingSetBeforeSwap = true ∧
     appendUnderLock = true := ⟨rfl, rfl, rfl, rfl⟩
@@ -24,6 +27,7 @@ theorem eventfd_tie : wakeupWritesOne = true ∧ handleReadDrains = true := ⟨r
 /-- bring the ties into the context of a case analysis -/
 macro "ties" : tactic => `(tactic| (
   have := drainSwaps_tie; have := finalDrain_tie; have := callingResetAfterRun_tie
+  have := batchDestroyedBeforeReset_tie
   have := runInline_loop; have := runInline_foreign))
 
 /-! ## `once_fifo` -/
@@ -37,19 +41,8 @@ structure FifoInv (s : St) : Prop where
 theorem runTop_fifo {s : St} (h : FifoInv s) : FifoInv (runTop s) := by
   obtain ⟨h1, h2⟩ := h
   unfold runTop
-  split
-  · split <;> exact ⟨h1, h2⟩
-  · split <;> exact ⟨h1, h2⟩
-  · split
-    · exact ⟨h1, h2⟩
-    · exact ⟨h1, h2⟩
-    · exact ⟨by simp [h1], h2⟩
-    · split
-      · exact ⟨h1, h2⟩
-      · exact ⟨by simp [h1], h2⟩
-    · exact ⟨h1, h2⟩
-    · exact ⟨h1, h2⟩
-    · exact ⟨h1, h2⟩
+  repeat' split
+  all_goals (first | exact ⟨h1, h2⟩ | exact ⟨by simp [h1], h2⟩)
 
 theorem stepLoop_fifo {s : St} (h : FifoInv s) : FifoInv (stepLoop s) := by
   have hr := runTop_fifo h
@@ -74,8 +67,66 @@ theorem run_fifo {s : St} (sched : List Nat) (h : FifoInv s) : FifoInv (run s sc
   | nil => exact h
   | cons k rest ih => exact ih (step_fifo k h)
 
-theorem init_fifo (elt wl : Bool) (tbl) (pre) (progs) : FifoInv (init elt wl tbl pre progs) := by
+theorem init_fifo (elt wl : Bool) (tbl) (dtbl) (pre) (progs) : FifoInv (init elt wl tbl dtbl pre progs) := by
   constructor <;> simp [init]
+
+/-! ## functor objects die inside the drain that ran them -/
+
+/-- outside a drain no run functor object is left in the local vector; the destruction starts when the whole batch
+has run -/
+structure BuryInv (s : St) : Prop where
+  outside : s.phase ≠ .draining → s.corpses = [] ∧ s.burying = false
+  batchDone : s.burying = true → s.batch = []
+
+theorem runTop_bury {s : St} (h : BuryInv s) : BuryInv (runTop s) := by
+  obtain ⟨h1, h2⟩ := h
+  unfold runTop
+  repeat' split
+  all_goals exact ⟨h1, h2⟩
+
+theorem stepLoop_bury {s : St} (h : BuryInv s) : BuryInv (stepLoop s) := by
+  have hr := runTop_bury h
+  obtain ⟨h1, h2⟩ := h
+  loop_cases
+  all_goals (first | assumption | (constructor <;> simp_all))
+
+theorem stepOther_bury {s : St} (k : Nat) (h : BuryInv s) : BuryInv (stepOther s k) := by
+  obtain ⟨h1, h2⟩ := h
+  other_cases
+  all_goals (constructor <;> simp_all)
+
+theorem step_bury {s : St} (k : Nat) (h : BuryInv s) : BuryInv (step s k) := by
+  unfold step; split
+  · exact stepLoop_bury h
+  · exact stepOther_bury k h
+
+theorem init_bury (elt wl : Bool) (tbl) (dtbl) (pre) (progs) : BuryInv (init elt wl tbl dtbl pre progs) := by
+  constructor <;> simp [init]
+
+/-- the loop thread's step never changes another thread's record, whatever the order of "destroy the batch" and
+"reset the flag" -/
+theorem stepLoopG_frame (fd : FinalDrain) (bd : Bool) (s : St) :
+    (stepLoopG fd bd s).thr = s.thr ∧ (stepLoopG fd bd s).elt = s.elt := by
+  have hr : (runTop s).thr = s.thr ∧ (runTop s).elt = s.elt := ⟨runTop_thr s, runTop_elt s⟩
+  unfold stepLoopG
+  split
+  all_goals (try simp only [testQuit, leaveLoop, enterLoop])
+  all_goals (repeat' split)
+  all_goals (first | exact hr | exact ⟨rfl, rfl⟩ | simp)
+
+/-- a schedule of the owner thread alone (plain scenario): nobody else's record changes -/
+theorem runBD_owner_only (bd : Bool) (s : St) (n : Nat) (he : s.elt = false) :
+    (runBD bd s (List.replicate n 0)).thr = s.thr ∧ (runBD bd s (List.replicate n 0)).elt = false := by
+  induction n generalizing s with
+  | zero => exact ⟨rfl, he⟩
+  | succ n ih =>
+    have hL : s.L = 0 := by simp [St.L, he]
+    have hs : stepBD bd s 0 = stepLoopG finalDrain bd s := by simp [stepBD, hL]
+    obtain ⟨f1, f2⟩ := stepLoopG_frame finalDrain bd s
+    have := ih (stepLoopG finalDrain bd s) (by rw [f2]; exact he)
+    simp only [List.replicate_succ, runBD, List.foldl_cons, hs]
+    simp only [runBD] at this
+    exact ⟨by rw [this.1, f1], this.2⟩
 
 /-! ## task bodies start on the loop thread only -/
 
